@@ -187,3 +187,8 @@ impl<W: fsm::AsyncSliceWriter> fsm::AsyncSliceWriter for FSliceWriter<W> {
         self.0.sync().await
     }
 }
+impl<R: sync::Size> sync::Size for FReadAt<R> {
+    fn size(&self) -> io::Result<Option<u64>> {
+        self.0.size()
+    }
+}
